@@ -133,23 +133,37 @@ func build(id string) string {
 			die(2, "instrumenter: %v", err)
 		}
 		overlay[filepath.Join(repo, "internal/sync/sync.go")] = filepath.Join(vd, "engine/shim/sync_shim.go")
+		if err := overlayGolangSet(repo, filepath.Join(work, "rw"), overlay); err != nil {
+			die(2, "golang-set overlay: %v", err)
+		}
 	}
-	// mutants on files the instrumenter does not touch (or plain mode)
+	// mutants on files the instrumenter does not touch (or plain mode): all hunks of one file
+	// accumulate in one overlay copy
+	pending := map[string][]byte{}
+	var order []string
 	for i, m := range muts {
 		if applied[i] {
 			continue
 		}
 		p := filepath.Join(repo, m.File)
-		src, err := os.ReadFile(p)
-		if err != nil {
-			die(2, "mutant: %v", err)
+		src, ok := pending[p]
+		if !ok {
+			var err error
+			src, err = os.ReadFile(p)
+			if err != nil {
+				die(2, "mutant: %v", err)
+			}
+			order = append(order, p)
 		}
 		if !bytes.Contains(src, []byte(m.Old)) {
 			die(2, "mutant text not found in %s: %q", m.File, m.Old)
 		}
-		src = bytes.Replace(src, []byte(m.Old), []byte(m.New), 1)
-		dst := filepath.Join(work, "rw", "mut__"+strings.ReplaceAll(m.File, "/", "__"))
-		os.WriteFile(dst, src, 0o644)
+		pending[p] = bytes.Replace(src, []byte(m.Old), []byte(m.New), 1)
+	}
+	for _, p := range order {
+		rel, _ := filepath.Rel(repo, p)
+		dst := filepath.Join(work, "rw", "mut__"+strings.ReplaceAll(rel, "/", "__"))
+		os.WriteFile(dst, pending[p], 0o644)
 		overlay[p] = dst
 	}
 	addDir := func(src, dstRel string) {
@@ -198,4 +212,42 @@ func build(id string) string {
 		die(2, "build failed: %v\n%s", err, out)
 	}
 	return bin
+}
+
+// overlayGolangSet replaces the map-order iteration of golang-set's thread-unsafe set (which
+// adapter.apply walks while dropping its lock around callbacks) by an iteration over a sorted
+// snapshot that skips elements removed meanwhile: one of the orders Go allows, the same in every
+// execution. The module cache itself is not touched.
+func overlayGolangSet(repo, out string, overlay map[string]string) error {
+	c := exec.Command("go", "list", "-m", "-f", "{{.Dir}}", "github.com/deckarep/golang-set/v2")
+	c.Dir = repo
+	c.Env = append(os.Environ(), "GOFLAGS=-mod=mod", "GOPROXY=off", "GOSUMDB=off", "GOTOOLCHAIN=local")
+	b, err := c.Output()
+	if err != nil {
+		return err
+	}
+	src := filepath.Join(strings.TrimSpace(string(b)), "threadunsafe.go")
+	data, err := os.ReadFile(src)
+	if err != nil {
+		return err
+	}
+	s := string(data)
+	oldEach := "func (s threadUnsafeSet[T]) Each(cb func(T) bool) {\n\tfor elem := range s {\n\t\tif cb(elem) {\n\t\t\tbreak\n\t\t}\n\t}\n}"
+	newEach := "func (s threadUnsafeSet[T]) Each(cb func(T) bool) {\n\tfor _, elem := range s.verifSorted() {\n\t\tif _, ok := s[elem]; !ok {\n\t\t\tcontinue\n\t\t}\n\t\tif cb(elem) {\n\t\t\tbreak\n\t\t}\n\t}\n}\n\n" +
+		"func (s threadUnsafeSet[T]) verifSorted() []T {\n\tkeys := make([]T, 0, len(s))\n\tfor elem := range s {\n\t\tkeys = append(keys, elem)\n\t}\n\tsort.Slice(keys, func(i, j int) bool { return fmt.Sprint(keys[i]) < fmt.Sprint(keys[j]) })\n\treturn keys\n}"
+	if !strings.Contains(s, oldEach) {
+		return fmt.Errorf("threadUnsafeSet.Each has an unexpected shape in %s", src)
+	}
+	s = strings.Replace(s, oldEach, newEach, 1)
+	oldTo := "func (s threadUnsafeSet[T]) ToSlice() []T {\n\tkeys := make([]T, 0, s.Cardinality())\n\tfor elem := range s {\n\t\tkeys = append(keys, elem)\n\t}\n\n\treturn keys\n}"
+	if strings.Contains(s, oldTo) {
+		s = strings.Replace(s, oldTo, "func (s threadUnsafeSet[T]) ToSlice() []T {\n\treturn s.verifSorted()\n}", 1)
+	}
+	s = strings.Replace(s, "import (\n", "import (\n\t\"sort\"\n", 1)
+	dst := filepath.Join(out, "golang_set__threadunsafe.go")
+	if err := os.WriteFile(dst, []byte(s), 0o644); err != nil {
+		return err
+	}
+	overlay[src] = dst
+	return nil
 }
